@@ -395,7 +395,10 @@ def literal_cases(chk, n):
 
 # ---------------------------------------------------------------------- C11: wide-alphabet keys
 KEY_ALPHABET = list("abcxyzABZ019") + ["_", "-", " ", ".", '"', "'", "\\", "/", "$", "é", "ß", "я", "名", "Ω", ":", "#",
-                                        "\u2028", "\x85", "\n", "\t", "\x0c"]
+                                        "\u2028", "\x85", "\n", "\t", "\x0c",
+                                        # compatibility characters: letters / digits to `\w`, but Python normalises identifiers (NFKC) -- micro sign,
+                                        # fi ligature, full-width i, superscript two, vulgar half
+                                        "\u00b5", "\ufb01", "\uff49", "\u00b2", "\u00bd"]
 
 
 def wide_key(rng):
